@@ -163,7 +163,7 @@ register(_C05())
 class _C04(Spec):
     pid = "C04"
     lean_module = "Starcal.Props.C04"
-    src_ties = ["Starcal.SrcTie.Interval", "Starcal.SrcTie.Normalize"]
+    src_ties = ["Starcal.SrcTie.Interval", "Starcal.SrcTie.Normalize", "Starcal.SrcTie.Intersect"]
     # the comparator tie not established: the quick tier already enumerates every tie-breaking case (all lists of <=3
     # intervals over 0..6, both end kinds, every order), so no wider sweep is needed
     supports_wide = True
